@@ -526,7 +526,7 @@ var JavascriptNestingLimit = 1000
 // and values backed by Go structs with back-pointers - the result of
 // Env.ProcessEvent - keep it busy forever.)
 func exportJavascript(vm *otto.Otto, v otto.Value) (interface{}, error) {
-	if v.IsObject() && !v.IsFunction() {
+	if v.IsObject() {
 		path := make(map[otto.Value]bool)
 		done := make(map[otto.Value]bool)
 		if err := checkJavascriptValue(v, path, done, 0); err != nil {
@@ -539,10 +539,11 @@ func exportJavascript(vm *otto.Otto, v otto.Value) (interface{}, error) {
 // checkJavascriptValue looks for a cycle (or too deep a nesting) in
 // the objects and arrays of the given value.
 func checkJavascriptValue(v otto.Value, path, done map[otto.Value]bool, depth int) error {
-	if !v.IsObject() || v.IsFunction() || goBackedJavascript(v) {
+	if !v.IsObject() || goBackedJavascript(v) {
 		// (Export hands a Go value back as it is.)
 		return nil
 	}
+	// (A function is an object, too, and Export walks its properties.)
 	if path[v] {
 		return errors.New("TypeError: Converting circular structure")
 	}
